@@ -303,8 +303,12 @@ func (l *lexer) backup() {
 
 // peek returns but does not consume the next rune in the input.
 func (l *lexer) peek() rune {
+	// Keep the width of the last consumed rune, so that
+	// a backup after a peek still steps back over that rune.
+	width := l.width
 	r := l.next()
 	l.backup()
+	l.width = width
 	return r
 }
 
